@@ -87,6 +87,10 @@ pub fn run_part(prop: &str, key: &str, seed: u64, runs: u64, tier: Tier, cap_s: 
         eprintln!("[{tag}] run {idx} stalled; re-running it alone in a fresh process");
         match confirm_in_fresh_process(&path) {
             Some(124) => violation = Some((path, v)),
+            Some(101) | Some(3) => {
+                eprintln!("HARNESS-ERROR: run {idx} panics inside the harness itself; see `gsim replay {path}`");
+                std::process::exit(2);
+            }
             Some(c) if c != 0 && c != 1 && c != 2 => {
                 // the process died (signal / abort) again: a crash, reproducible from the file
                 let v = Violation::new("crash", format!("run {idx} kills the process (exit status {c}) — abort, stack overflow or memory error"));
